@@ -77,6 +77,9 @@ pub fn inspect(p: &Packet, step: &mut dyn FnMut(&str)) {
     step("Packet clone");
     let c = p.clone();
     let _ = (c.id(), c.rcode(), c.opcode(), c.opt().map(|o| format!("{:?}", o)));
+    step("Packet into_reply / flags");
+    let rp = p.clone().into_reply();
+    let _ = (format!("{:?}", rp), rp.has_flags(simple_dns::PacketFlag::RESPONSE), p.has_flags(simple_dns::PacketFlag::all()));
     for q in &p.questions {
         step("Question Debug");
         let _ = format!("{:?}", q);
